@@ -158,6 +158,9 @@ def gen_headers(rng):
             # a key is whatever stands in front of the first ": " - also when it begins with a blank or a tab (no line folding),
             # holds a colon, or is empty
             k = rng.choice([b" X-Pad", b"\tX-Tab", b"  ", b"A:B", b":authority", b"", b" "])
+        elif rng.random() < 0.25:
+            # header names are kept byte for byte: "Cookie", "COOKIE" and "cookie" are three different keys
+            k = rng.choice([k.upper(), k.lower(), k.swapcase()])
         r = rng.random()
         if r < 0.15:
             v = b""
